@@ -71,7 +71,7 @@ PINF = E('inf', 1)                   # +infinity as a bound component of a (vect
 NINF = E('inf', -1)
 
 
-LEAVES = {'c', 'x', 'u', 'z', 'p', 'v', 't', 'T', 't0', 'tf', 'DT', 'DTc', 'q', 'inf', 'xg'}     # 'xg': a whole (vector valued) declared state; MX reading only
+LEAVES = {'c', 'x', 'u', 'z', 'p', 'v', 't', 'T', 't0', 'tf', 'DT', 'DTc', 'q', 'inf', 'xg', 'vg'}     # 'xg' / 'vg': a whole (vector / matrix valued) declared state / variable; MX reading only
 WRAP = {'at_t0', 'at_tf', 'integral', 'integral_control', 'sum', 'wsum', 'offset', 'der', 'inf_der'}
 
 
@@ -84,6 +84,8 @@ def show(e):
         return 'inf' if e.a[0] > 0 else '-inf'
     if e.op in ('x', 'u', 'z', 'q', 'xg'):
         return '%s%d' % (e.op, e.a[0])
+    if e.op == 'vg':
+        return 'v[%s]' % e.a[0]
     if e.op in ('p', 'v'):
         return '%s[%s,%d]' % (e.op, e.a[0], e.a[1])
     if e.op in ('t', 'T', 't0', 'tf', 'DT', 'DTc'):
@@ -170,6 +172,7 @@ class Sym:
     cols: int = 1
     value: Any = None       # parameters: numeric value (scalar or list of columns); None = leave symbolic only
     scale: Any = 1
+    as_numpy: bool = False  # hand the value to set_value as a numpy array (2-D for matrices) instead of a casadi.DM
 
     @property
     def n(self):
@@ -217,6 +220,7 @@ class Spec:
     nz: int = 0
     ode: Any = None         # list of nx E  (None => discrete)
     nxt: Any = None         # list of nx E  (set_next)
+    nxt_order: Any = None   # how set_next is called: None (one call per state, declaration order), 'reversed' (one call per state, reverse order), 'concat-reversed' (ONE call on vertcat of the states in reverse order)
     alg: Any = field(default_factory=list)       # list of nz E
     params: Any = field(default_factory=list)    # list of Sym
     vars: Any = field(default_factory=list)      # list of Sym
